@@ -27,7 +27,7 @@ vars == <<i, st>>
 
 NoImage == [prog |-> "-", argv |-> << >>, envp |-> << >>, cwd |-> "-", io |-> <<"-", "-", "-">>,
             uid |-> -2, gid |-> -2, pg |-> "-"]
-NoFacts == [dio |-> << >>, raw |-> << >>, pipes |-> << >>, pgrp |-> 0, pfds |-> << >>]
+NoFacts == [dio |-> << >>, raw |-> << >>, pipes |-> << >>, pgrp |-> 0, pfds |-> << >>, pos |-> << >>, nprog |-> 0]
 NoCfg == [bin |-> "-", envAlt |-> << >>, planned |-> << >>, feed |-> "", flow |-> << >>, mayHang |-> FALSE]
 Fresh(run, c, facts) ==
     [run |-> run, c |-> [c EXCEPT !.envAlt = Range(@), !.planned = Range(@)], facts |-> facts,
@@ -55,8 +55,20 @@ IoConsistent(s, m, d, facts, pipes) ==
                                /\ d.acc = (IF s = 1 THEN 0 ELSE 1)
       [] m = "raw"     -> d = facts.raw[s]
       [] OTHER         -> FALSE
+\* Inherit / RawFd: the program must work on the very OPEN FILE DESCRIPTION the caller had (not on some
+\* other description of the same file): every exec'ed program leaves a footprint on the regular files
+\* behind its descriptors 0/1/2 (reads 3 bytes from stdin, writes 2 to stdout / stderr); the check's own
+\* copies of the descriptions the driver started with (inh) and of the RawFd sources (raw) must have moved
+\* by exactly that - and not at all for streams that were to be /dev/null or a pipe
+Moved(s) == IF s = 1 THEN 3 ELSE 2
+PosOk(s, m, facts) ==
+    LET q == facts.pos[s]
+        k == Moved(s) * facts.nprog
+    IN  CASE m = "inherit" -> q.inh = k /\ q.raw = 0
+          [] m = "raw"     -> q.raw = k /\ q.inh = 0
+          [] OTHER         -> q.inh = 0 /\ q.raw = 0
 IoTags(c, dio, facts, pipes) ==
-    [s \in 1..3 |-> IF IoConsistent(s, c.io[s], dio[s], facts, pipes) THEN c.io[s] ELSE "other"]
+    [s \in 1..3 |-> IF IoConsistent(s, c.io[s], dio[s], facts, pipes) /\ PosOk(s, c.io[s], facts) THEN c.io[s] ELSE "other"]
 
 \* a stdin pipe really is the caller's: what the caller wrote into the Child's stdin (cfg.feed) is what
 \* the program read from its descriptor 0 up to end-of-file (which `wait` must produce by closing it)
